@@ -67,6 +67,21 @@ def plan(tier, seed):
     return specs
 
 
+def def_variants(defs):
+    import re
+    lines = [l for l in defs.split("\n") if l.strip()]
+    prios = [re.search(r"PRIO (\d+)", l) for l in lines]
+    out = [defs]
+    if sum(1 for m in prios if m) >= 2:
+        nums = [m.group(1) for m in prios if m]
+        rot = nums[1:] + nums[:1]
+        it = iter(rot)
+        out.append("\n".join(re.sub(r"PRIO \d+", lambda _m: "PRIO " + next(it), l) if re.search(r"PRIO \d+", l) else l for l in lines) + "\n")
+    if len(lines) >= 2:
+        out.append("\n".join(reversed(lines)) + "\n")
+    return out
+
+
 def inputs(spec):
     """-> (files, main, number of streams in the case)"""
     if spec["kind"] == "fam":
@@ -75,10 +90,13 @@ def inputs(spec):
         for n in range(0, spec["rest"] + 1):
             for w in itertools.product(vocab, repeat=n):
                 streams.append(" ".join(spec["prefix"] + list(w)))
-        # many streams per apply_macros call (the engine builds its tables once per call), separated by a barrier
-        for i in range(0, len(streams), BATCH):
+        # many streams per apply_macros call (the engine builds its tables once per call), separated by a barrier;
+        # consecutive calls in the same driver process use variants of the definitions: priorities permuted among the
+        # macros, definition order reversed - the same pattern/body text with another priority right after each other
+        variants = def_variants(defs)
+        for n_, i in enumerate(range(0, len(streams), BATCH)):
             chunk = streams[i:i + BATCH]
-            yield {"main": defs + (" %s " % BARRIER).join(chunk)}, "main", len(chunk)
+            yield {"main": variants[n_ % len(variants)] + (" %s " % BARRIER).join(chunk)}, "main", len(chunk)
     else:
         r = common.rng(spec["seed"], "C09", spec["chunk"])
         for k in range(spec["n"]):
